@@ -59,8 +59,8 @@ def rule_close(ctx):
     prog = ctx.prog
     g = prog.one('ChainStorage::get_block')
     ctx.touch(g)
-    rec = '(get(self.chain_index, a2) as Some).0'
-    ent = '(get_mut(self.blk_files, %s.blk_index) as Some).0' % rec
+    rec = 'get(self.chain_index, a2)?'
+    ent = 'get_mut(self.blk_files, %s.blk_index)?' % rec
     rd = [cs for cs in g.calls if mir.method_name(cs.name) == 'read_block']
     cl = [cs for cs in g.calls if mir.method_name(cs.name) == 'close']
     if len(rd) != 1 or len(cl) != 1:
@@ -84,7 +84,9 @@ def rule_close(ctx):
                 dec = src
     if dec is None or len(okb) != 1:
         raise Unrecognised('close', 'decision block or Ok(Some) return not found')
-    ok_edge = [dst for (src, dst), fs in g.edge_facts().items() for f in fs if f[0] == 'is' and f[2] == ('Ok',) and 'read_block(' in canon(f[1])]
+    rde = mir.strip_sites(g.call_expr(rd))
+    ok_edge = [dst for (src, dst), fs in g.edge_facts().items() if not g.edge_infeasible(src, dst)
+               for f in fs if f[0] == 'is' and f[2] == ('Ok',) and mir.strip_sites(mir.peel(f[1], calls=False)) == rde]
     allp = all(okb[0] not in g.reach_from(t, avoid=[dec]) for t in ok_edge) and bool(ok_edge)
     ctx.check('close', 'decision-on-every-success-path', allp, (g, dec), 'Ok(Some(block)) unreachable from the read-Ok edge without the close decision')
     # on the true edge close is always called before returning
@@ -114,7 +116,7 @@ def rule_threshold(ctx):
         ctx.check('threshold', 'keyed-by-records-file', a[1] == '%s.1.blk_index' % it, cs, 'table key = %s' % a[1])
         ctx.check('threshold', 'value-is-records-height', a[2] == '%s.0' % it, cs, 'table value = %s' % a[2])
         gd = [x for x in util.guards_at(n, cs.bb) if 'next(' not in x]
-        cur = '(get(new(), %s.1.blk_index) as Some).0' % it
+        cur = 'get(new(), %s.1.blk_index)?' % it
         if any(x.endswith(' is None') for x in gd):
             kinds.append('init')
         elif any(x in ('%s < %s.0' % (cur, it), 'gt(%s.0, %s)' % (it, cur)) for x in gd):
